@@ -11,6 +11,7 @@ import threading
 
 from xsdata.formats.dataclass.context import XmlContext
 from xsdata.formats.dataclass.models.elements import XmlVar
+from xsdata.formats.dataclass.parsers.bases import NodeParser
 
 from . import sched
 
@@ -94,6 +95,10 @@ def markers() -> sched.MarkerSet:
                     (r"return self\.xsi_cache\[qname\]", "x_read"),
                 ],
             ),
+            # the statement also shares PARSER instances: every access to the parser's own attributes on the way into
+            # a parse (root class lookup, handler set-up) is a yield point
+            sched.Marker(NodeParser.find_root_clazz, [(r"self\.", "p_access")]),
+            sched.Marker(NodeParser.parse, [(r"self\.", "p_access")]),
             sched.Marker(
                 XmlVar.match_namespace,
                 [(r"self\.namespace_matches", "m_access")],     # the lazy per-field memo of wildcard namespace matches
